@@ -231,8 +231,10 @@ unsigned int Optimizer::find_match_length(uint32_t src_track, uint32_t src_start
 			if(!loop_depth)
 			{
 				dst_safe = dst_end;
+				// number of matched events up to this depth-0 boundary (nested loops included):
+				// apply_match() erases exactly this many events
 				if(loop_length)
-					(*loop_length)++;
+					*loop_length = dst_end - dst_start;
 			}
 		}
 		else
